@@ -6,6 +6,14 @@ package commitlog
 // messages per segment (50 bytes per message, one timestamp per segment),
 // crossed with a grid of message limits x byte limits x every position of the
 // age cutoff (off, nothing old, first a segments old, everything old).
+//
+// Second family (last-write times NON-MONOTONIC across segments, as after
+// leader changes between brokers with skewed clocks): every assignment of an
+// "expired / not expired" flag to every segment, incl. the newest -
+//   - all 2^n assignments over n = 4, 5 segments of one message each,
+//   - all assignments that are not of the monotonic form E..En..n over ALL
+//     layouts of up to 3 (thorough: 4) segments with 1, 2 or 3 messages each,
+// crossed with a (smaller) grid of message and byte limits.
 
 import (
 	"fmt"
@@ -31,6 +39,43 @@ type c09EnumCase struct {
 	msgs   int64
 	bytes  int64
 	ageCut int // -1 = off, a = the first a segments are older than the cutoff
+	// agePat (second family): agePat[i] = segment i was last written before the
+	// age cutoff; nil = first family (ageCut)
+	agePat []bool
+}
+
+func c09PatString(p []bool) string {
+	b := make([]byte, len(p))
+	for i, x := range p {
+		b[i] = 'n'
+		if x {
+			b[i] = 'E'
+		}
+	}
+	return string(b)
+}
+
+// c09PatMonotonic: E..En..n, i.e. what non-decreasing last-write times give.
+func c09PatMonotonic(p []bool) bool {
+	for i := 1; i < len(p); i++ {
+		if p[i] && !p[i-1] {
+			return false
+		}
+	}
+	return true
+}
+
+// c09Patterns: all 2^n flag assignments over n segments.
+func c09Patterns(n int) [][]bool {
+	var out [][]bool
+	for m := 0; m < 1<<n; m++ {
+		p := make([]bool, n)
+		for i := range p {
+			p[i] = m>>i&1 == 1
+		}
+		out = append(out, p)
+	}
+	return out
 }
 
 func TestVerifC09Enum(t *testing.T) {
@@ -49,12 +94,22 @@ func TestVerifC09Enum(t *testing.T) {
 			5: {[]int64{0, 5}, []int64{0, 301}}}
 	}
 	maxSegs := len(grids)
+	// grids of the non-monotonic family: skewOnes for 4 and 5 one-message
+	// segments, skewAll[n] for all layouts of n segments
+	skewOnes := grid{[]int64{0, 2, 4}, []int64{0, 149}}
+	skewAll := map[int]grid{2: {[]int64{0, 2, 4}, []int64{0, 150}}, 3: {[]int64{0, 2, 4}, []int64{0, 150}}}
+	if kit.Thorough() {
+		skewOnes = grid{[]int64{0, 1, 2, 3, 4, 5}, []int64{0, 50, 149, 151, 249}}
+		g := grid{[]int64{0, 1, 2, 3, 4, 6, 7}, []int64{0, 50, 149, 150, 300, 450}}
+		skewAll = map[int]grid{2: g, 3: g, 4: {[]int64{0, 3, 7}, []int64{0, 151, 400}}}
+	}
 	var gdesc []string
 	for n := 1; n <= maxSegs; n++ {
 		gdesc = append(gdesc, fmt.Sprintf("%d segments: msgs %v x bytes %v", n, grids[n].msgs, grids[n].bytes))
 	}
-	rep.SetRule(fmt.Sprintf("small-scope enumeration: ALL layouts of 1..%d segments with 1,2,3 messages per segment (50 bytes per message, segment i written at time 1000+10i) x a grid of message and byte limits (0 = off) per layout size [%s] x age cutoff in {off, before all, after the first a segments for every a, after all}; one Clean with the full oracle, a second Clean that must remove nothing; non-trivial = removed >=1 segment; distinct = layout + limits", maxSegs, strings.Join(gdesc, "; ")))
+	rep.SetRule(fmt.Sprintf("small-scope enumeration: ALL layouts of 1..%d segments with 1,2,3 messages per segment (50 bytes per message, segment i written at time 1000+10i) x a grid of message and byte limits (0 = off) per layout size [%s] x age cutoff in {off, before all, after the first a segments for every a, after all}; PLUS the non-monotonic family (last-write times going backwards between segments): every expired/not-expired flag assignment (incl. the newest segment) over 4 and 5 one-message segments x msgs %v x bytes %v, and every assignment that is not of the monotonic form E..En..n over ALL layouts of 2..%d segments with 1,2,3 messages each x a reduced limit grid; one Clean with the full oracle, a second Clean that must remove nothing; non-trivial = removed >=1 segment; distinct = layout + limits", maxSegs, strings.Join(gdesc, "; "), skewOnes.msgs, skewOnes.bytes, len(skewAll)+1))
 	rep.SetExhaustive(true)
+	rep.Assume("age limit with non-monotonic last-write times: a segment is removed for age only if it is itself expired; an expired segment behind a retained unexpired one legitimately stays ('every configured limit holds' is read for age as 'the oldest surviving segment is not expired, or only the newest remains')")
 	var cases []c09EnumCase
 	var gen func(prefix []int)
 	gen = func(prefix []int) {
@@ -76,6 +131,42 @@ func TestVerifC09Enum(t *testing.T) {
 		}
 	}
 	gen(nil)
+	// second family: non-monotonic last-write times
+	firstFamily := len(cases)
+	addSkew := func(layout []int, g grid, all bool) {
+		for _, pat := range c09Patterns(len(layout)) {
+			if !all && c09PatMonotonic(pat) {
+				continue // covered by the first family
+			}
+			for _, m := range g.msgs {
+				for _, b := range g.bytes {
+					cases = append(cases, c09EnumCase{layout: append([]int(nil), layout...), msgs: m, bytes: b, agePat: pat})
+				}
+			}
+		}
+	}
+	for n := 4; n <= 5; n++ {
+		ones := make([]int, n)
+		for i := range ones {
+			ones[i] = 1
+		}
+		addSkew(ones, skewOnes, true)
+	}
+	var genSkew func(prefix []int)
+	genSkew = func(prefix []int) {
+		if g, ok := skewAll[len(prefix)]; ok {
+			addSkew(prefix, g, false)
+		}
+		if len(prefix) == len(skewAll)+1 {
+			return
+		}
+		for c := 1; c <= 3; c++ {
+			genSkew(append(prefix, c))
+		}
+	}
+	genSkew(nil)
+	rep.SetInfo("cases_first_family_all_shards", firstFamily)
+	rep.SetInfo("cases_nonmonotonic_family_all_shards", len(cases)-firstFamily)
 	rep.SetInfo("cases_enumerated_all_shards", len(cases))
 	rep.SetInfo("shard", fmt.Sprintf("%d of %d (case index mod %d)", shard, nshards, nshards))
 	kit.Parallel(len(cases), kit.Workers(), func(i int) {
@@ -84,7 +175,9 @@ func TestVerifC09Enum(t *testing.T) {
 		}
 		c := cases[i]
 		lim := c09Limits{Msgs: c.msgs, Bytes: c.bytes}
-		if c.ageCut >= 0 {
+		if c.agePat != nil {
+			lim.Age = c09AgeFor(995) // expired segments are written at 900+10i, the others at 1100+10i
+		} else if c.ageCut >= 0 {
 			lim.Age = c09AgeFor(1000 + 10*int64(c.ageCut) - 5)
 		}
 		e, err := newC09Env(rep, "enum", 1, lim)
@@ -97,6 +190,12 @@ func TestVerifC09Enum(t *testing.T) {
 			ts := make([]int64, n)
 			for j := range ts {
 				ts[j] = 1000 + 10*int64(s)
+				if c.agePat != nil {
+					ts[j] = 1100 + 10*int64(s)
+					if c.agePat[s] {
+						ts[j] = 900 + 10*int64(s)
+					}
+				}
 			}
 			if !e.appendBatch(6, ts) {
 				return
@@ -108,11 +207,12 @@ func TestVerifC09Enum(t *testing.T) {
 		if !ok {
 			return
 		}
+		exposed := e.ageExposed
 		k2, ok := e.cleanAndCheck(rng, false)
 		if !ok {
 			return
 		}
-		if k2 != 0 {
+		if k2 != 0 && !exposed { // exposed: already reported by the first clean's sufficiency check
 			e.fail("C09:second-clean-removed", fmt.Sprintf("a second Clean with unchanged limits and cutoff removed %d more segments", k2), nil)
 		}
 		switch {
@@ -130,6 +230,11 @@ func TestVerifC09Enum(t *testing.T) {
 		for j, n := range c.layout {
 			ls[j] = fmt.Sprint(n)
 		}
-		e.finish(fmt.Sprintf("%s|%d|%d|%d", strings.Join(ls, ""), c.msgs, c.bytes, c.ageCut), k > 0)
+		age := fmt.Sprint(c.ageCut)
+		if c.agePat != nil {
+			age = c09PatString(c.agePat)
+			rep.Count("cases_nonmonotonic_family", 1)
+		}
+		e.finish(fmt.Sprintf("%s|%d|%d|%s", strings.Join(ls, ""), c.msgs, c.bytes, age), k > 0)
 	})
 }
